@@ -2,7 +2,7 @@
 import ast
 from sa.index import AnalysisError
 from sa.paths import call_name
-from rules.common import list_delegation, txt, paths_of, loc, tests_on, strip_not, check_none_default
+from rules.common import Quiet, list_delegation, txt, paths_of, loc, tests_on, strip_not, check_none_default
 
 SPEC = {
     'explanation': (
@@ -41,7 +41,11 @@ def canon_cmp(e):
 def run(ctx):
     prog = ctx.program
     bi = prog.func('iterutils.backoff_iter')
-    w, paths = paths_of(prog, bi)
+    class HelperInl(Quiet):
+        def inline(self, walker, op, callee, st):
+            from rules.locks import is_module_helper
+            return callee.cls is None and is_module_helper(op, callee)
+    w, paths = paths_of(prog, bi, model=HelperInl(prog))
     # validation before the first yield
     bad = None
     for p in paths:
@@ -104,60 +108,47 @@ def run(ctx):
         (has(lambda c: (c[0] == 'jitter' and c[1] == 'Lt' and c[2] in m1) or (c[2] == 'jitter' and c[1] == 'Gt' and c[0] in m1)) and
          has(lambda c: (c[0] == 'jitter' and c[1] == 'Gt' and c[2] in one) or (c[2] == 'jitter' and c[1] == 'Lt' and c[0] in one)))
     ctx.ob('T9.range', bi.fq, 'jitter outside [-1, 1] rejected (raises ValueError)', jit, loc=bi.loc)
-    # T7 clamp between every change of the running delay and the next yield (source-level expressions).
-    # The running variable is discovered: the target of `X *= factor` (or X = X * factor).
-    CUR = None
-    for n in ast.walk(bi.node):
-        if isinstance(n, ast.AugAssign) and isinstance(n.op, ast.Mult) and isinstance(n.target, ast.Name) and txt(n.value) == 'factor':
-            CUR = n.target.id
-        if isinstance(n, ast.Assign) and len(n.targets) == 1 and isinstance(n.targets[0], ast.Name) and \
-                any(isinstance(b, ast.BinOp) and isinstance(b.op, ast.Mult) and
-                    {txt(b.left), txt(b.right)} == {n.targets[0].id, 'factor'} for b in ast.walk(n.value)):
-            CUR = n.targets[0].id
-    if CUR is None:
-        raise AnalysisError('anchor vanished: no `X *= factor` growth step in backoff_iter')
-    STOP = 'stop'
-    GT = ((CUR, 'Gt', STOP), (STOP, 'Lt', CUR), (CUR, 'GtE', STOP), (STOP, 'LtE', CUR))
-    assign_of = {}
-    for n in ast.walk(bi.node):
-        if isinstance(n, ast.Assign):
-            for t in n.targets:
-                for x in ast.walk(t):
-                    assign_of[id(x)] = n
+    # T7 clamp, decided on values: on the paths without jitter the value yielded is the running delay itself; for every two
+    # consecutive yields the later value V2 is the earlier one unchanged, or `stop` / min(.., stop), or the path evaluated a
+    # comparison of V2 with stop between the two yields whose outcome says V2 does not exceed stop
     n_checked = 0
     for p in paths:
-        ops = p.ops
-        for i, o in enumerate(ops):
-            grows = False
-            src = ''
-            if o.kind == 'aug' and isinstance(o.node.target, ast.Name) and o.node.target.id == CUR \
-                    and isinstance(o.node.op, (ast.Mult, ast.Add, ast.Pow)):
-                grows = True
-                src = txt(o.node)
-            elif o.kind == 'name_store' and getattr(o.node, 'id', None) == CUR and id(o.node) in assign_of \
-                    and any(x.kind == 'yield' and x.seq < o.seq for x in ops):
-                rhs = txt(assign_of[id(o.node)].value)
-                src = CUR + ' = ' + rhs
-                if rhs != STOP and not rhs.replace(' ', '').startswith(('min(%s,stop)' % CUR, 'min(stop,%s)' % CUR)):
-                    grows = True
-            if not grows:
-                continue
-            nxt = next((x for x in ops if x.kind == 'yield' and x.seq > o.seq), None)
-            if nxt is None:
-                continue
+        ts_all = tests_on(w, p)
+        jt = [truth for t, truth, o in ts_all if t == 'jitter']
+        if jt and any(jt) and not all(jt):
+            continue          # jitter inconsistently on and off: not a feasible path
+
+        def base(v):
+            # the un-jittered delay a yielded value is computed from:  B  or  B -/+ (B * jitter * random())
+            e = w.expand(v)
+            if isinstance(e, ast.BinOp) and isinstance(e.op, (ast.Sub, ast.Add)) and txt(e.left) in txt(e.right):
+                return e.left
+            return e
+        ys = [o for o in p.ops if o.kind == 'yield']
+        for y1, y2 in zip(ys, ys[1:]):
+            v1, v2 = norm(base(y1.val)), norm(base(y2.val))
+            if v1 == v2:
+                continue          # no change of the delay between the two yields
             n_checked += 1
-            between = [x for x in ops if o.seq < x.seq < nxt.seq]
-            clamp_min = any(x.kind == 'name_store' and getattr(x.node, 'id', None) == CUR and id(x.node) in assign_of and
-                            txt(assign_of[id(x.node)].value).replace(' ', '') in ('min(%s,stop)' % CUR, 'min(stop,%s)' % CUR)
-                            for x in between)
-            folded = src.replace(' ', '').startswith(CUR + '=min(') and STOP in src
-            # the clamp test was evaluated (either outcome) => the clamp guards this path
-            tested = any(x.kind == 'test' and canon_cmp(x.node) in GT for x in between)
-            ok = tested or clamp_min or folded
-            ctx.ob('T7.clamp', bi.fq, 'after `%s` the delay is compared with / clamped to stop before the next value is yielded'
-                   % src, ok, loc=loc(bi, o.node), path=p.describe() if not ok else None)
+            ok = v2 == 'stop' or (v2.replace(' ', '').startswith('min(') and 'stop' in v2)
+            det = 'next value `%s`' % txt(w.expand(y2.val))
+            if not ok:
+                for t, truth, o in ts_all:
+                    if not (y1.seq < o.seq < y2.seq):
+                        continue
+                    e, neg = strip_not(o.val)
+                    if not (isinstance(e, ast.Compare) and len(e.ops) == 1):
+                        continue
+                    l, r, opn = norm(e.left), norm(e.comparators[0]), type(e.ops[0]).__name__
+                    tr = (o.info != neg)
+                    if (l, r) == (v2, 'stop'):
+                        ok = ok or (opn in ('Gt', 'GtE') and not tr) or (opn in ('Lt', 'LtE') and tr)
+                    elif (l, r) == ('stop', v2):
+                        ok = ok or (opn in ('Lt', 'LtE') and not tr) or (opn in ('Gt', 'GtE') and tr)
+            ctx.ob('T7.clamp', bi.fq, 'between two yields a changed delay is compared with / clamped to stop before it is yielded',
+                   ok, loc=loc(bi, y2.node), detail=det, path=p.describe() if not ok else None)
     if n_checked == 0:
-        raise AnalysisError('no growth step found in backoff_iter')
+        raise AnalysisError('no change of the delay between two yields found in backoff_iter')
     for p in paths:
         fy = next((o for o in p.ops if o.kind == 'yield'), None)
         if fy is not None:
